@@ -21,6 +21,13 @@ func RunOracles(w *World, spec Spec) error {
 	if spec.Has("healthx") {
 		return OHealthExact(w)
 	}
+	if spec.Has("faults") {
+		k := spec.Extra["k"]
+		if k == 0 || spec.Has("k1") {
+			k = 1
+		}
+		return OFaults(w, k)
+	}
 	if spec.Has("crash") {
 		// crash now ...
 		if err := OCrash(w); err != nil {
